@@ -10,6 +10,7 @@ mod spectral;
 mod vset;
 mod dur;
 mod eng;
+mod exc;
 mod laws;
 mod mlpg;
 mod engine;
@@ -49,6 +50,7 @@ fn main() {
         "c17-record" => c17::record(n(2) as u64, n(3), &a[4], &a[5]),
         "mlpg-run" => mlpg::run(&a[2], &a[3]),
         "mlpg-record" => mlpg::record(n(2) as u64, n(3), n(4), &a[5]),
+        "exc-record" => exc::record(&a[2], n(3) as u64, n(4), &a[5]),
         "c20-replay" => c20::replay(&a[2], &a[3]),
         other => die(&format!("unknown command {}", other)),
     }
